@@ -488,7 +488,21 @@ static void op_meta(int argc, char** a)
 	size_t n; void* data = make_data(a[6], ty, &n); int es = elem_size(ty);
 	void* copy = malloc(n * es + 8); memcpy(copy, data, n * es);
 	int cfg_szmode = confparams_cpr->szMode;
-	size_t cs = 0; unsigned char* cb = SZ_compress_args(ty, data, &cs, mode, absb, rel, 0, r[0], r[1], r[2], r[3], r[4]);
+	/* optional flow (8th argument): "p<type>" = an earlier compression of another element type in the same process,
+	 * "t" = the observed stream comes from the thread-safe customize entry (which enters the kernels without the dispatcher) */
+	const char* flow = argc > 7 ? a[7] : "";
+	const char* pp = strchr(flow, 'p');
+	if (pp) {
+		int pty = pp[1] - '0'; size_t pn; void* pd = make_data("g:0:7:40:3ff0000000000000:4059000000000000", pty, &pn);
+		size_t ps = 0; unsigned char* pb = SZ_compress_args(pty, pd, &ps, ABS, 1.0, 1e-3, 0, 0, 0, 0, 0, 64);
+		if (pb) free(pb); free(pd);
+	}
+	size_t cs = 0; unsigned char* cb; int cst = 0;
+	if (strchr(flow, 't') && ty < 2) {
+		sz_params para; memset(&para, 0, sizeof para); para.errorBoundMode = mode; para.absErrBound = absb; para.relBoundRatio = rel;
+		cb = SZ_compress_customize_threadsafe("SZ", &para, ty, data, r[0], r[1], r[2], r[3], r[4], &cs, &cst);
+	} else
+		cb = SZ_compress_args(ty, data, &cs, mode, absb, rel, 0, r[0], r[1], r[2], r[3], r[4]);
 	if (!cb) { printf("st=null\n"); return; }
 	int lc = cs >= 4 ? is_lossless_compressed_data(cb, cs) : -1;
 	printf("out=%zx lc=%d ", cs, lc); fflush(R);
@@ -500,7 +514,7 @@ static void op_meta(int argc, char** a)
 	printf(" const=%d lossless=%d st=%d len=%zx ty=%x mode=%x b6=%x b10=%x szmode=%x cfgszmode=%x", m->isConstant, m->isLossless, m->sizeType, m->dataSeriesLength,
 	       m->conf_params->dataType, m->conf_params->errorBoundMode, fbits((float)m->conf_params->absErrBound), fbits((float)m->conf_params->relBoundRatio), m->conf_params->szMode, cfg_szmode);
 	double rep_abs = m->conf_params->absErrBound; int rep_mode = m->conf_params->errorBoundMode;
-	free(m);
+	free(m->conf_params); free(m);
 	void* dec = SZ_decompress(ty, cb, cs, r[0], r[1], r[2], r[3], r[4]);
 	if (!dec) { printf(" dec=null\n"); return; }
 	double mn, mx; double e = effective_bound(ty, copy, n, mode, absb, rel, &mn, &mx);
@@ -574,7 +588,9 @@ static void op_hist(int argc, char** a)
 				if (dec) free(dec);
 			} else if (t[0] == 'm' && ns) {
 				int k = atoi(t + 2) % ns;
-				if (sizes[k] > 60 && is_lossless_compressed_data(streams[k], sizes[k]) == -1) { sz_metadata* m = SZ_getMetadata(streams[k]); if (m) free(m); }
+				size_t kn = computeDataLength(sdims[k][0], sdims[k][1], sdims[k][2], sdims[k][3], sdims[k][4]);
+				int headerless = types[k] < 2 && kn <= 20;      /* float/double arrays of at most 20 elements are returned verbatim: there is no header to query */
+				if (!headerless && sizes[k] > 60 && is_lossless_compressed_data(streams[k], sizes[k]) == -1) { sz_metadata* m = SZ_getMetadata(streams[k]); if (m) { free(m->conf_params); free(m); } }
 				else executed = 0;
 			} else if (t[0] == 'f') {
 				if (init_from_cfg(a[0]) != SZ_SCES) { printf(" reinit-failed"); }
@@ -593,7 +609,8 @@ static void op_hist(int argc, char** a)
 /* pw <type 0|1> <dims> <pwr bits> <cfg> <gen> <seed> <span> [r]: point-wise relative round trip.
  * generators: 0 positive smooth, 1 mixed-sign smooth, 2 random magnitudes 2^[-span,span] with random signs, 3 = 2 with 10% exact zeros,
  *             4 all negative, 5 smooth positive with one exact zero, 6 zeros except one value, 7 denormal magnitudes, 8 blocks of zeros
- *             and of mixed-sign values, 9 values within a few ulps of each other (tiny relative differences)
+ *             and of mixed-sign values, 9 values within a few ulps of each other (tiny relative differences), 10 smooth mixed-sign field with a
+ *             few magnitudes 2^-span and zeros
  * oracle: |x' - x| <= r*|x| (evaluated exactly: long double), exact zeros stay exact zeros, no element changes sign */
 static void op_pw(int argc, char** a)
 {
@@ -614,6 +631,11 @@ static void op_pw(int argc, char** a)
 		case 6: v = (i == n / 3) ? 2.5 : 0.0; break;
 		case 7: v = (urand(&s) < 0.5 ? -1.0 : 1.0) * ldexp(1.0 + u, ty == SZ_FLOAT ? -(127 + (int)(urand(&s) * 20)) : -(1023 + (int)(urand(&s) * 45))); break;
 		case 8: v = ((i / 23) % 3 == 0) ? 0.0 : ((i / 23) % 3 == 1 ? sin((double)i * 0.3) : 5.0 + u); break;
+		case 10: /* a smooth mixed-sign field below 1 in magnitude with a few magnitudes hundreds of binades smaller and a few zeros:
+		            the rounding margin of the log transform is governed by the tiny magnitudes, the data still compress */
+			v = (0.45 + 0.35 * sin((double)i * 0.013 + 0.3)) * (((i / 61) & 1) ? -1.0 : 1.0);      /* magnitudes in [0.1, 0.8], sign by stripes */
+			if (i % 997 == 5) v = ldexp(1.0 + u, -span); else if (i % 1201 == 7) v = -ldexp(1.0 + u, -span + 1); else if (i % 1499 == 11) v = 0.0;
+			break;
 		default: v = 1.0 + (double)(lcg(&s) % 7) * (ty == SZ_FLOAT ? 1.1920929e-7 : 2.220446049250313e-16); break;
 		}
 		if (ty == SZ_FLOAT) { float f = (float)v; memcpy((char*)data + i * 4, &f, 4); } else memcpy((char*)data + i * 8, &v, 8);
